@@ -44,6 +44,8 @@ enum Mode {
 	Max,
 	/// `pick(sel, max+1)` prefix hops, recipient payload padded until the 1300 bytes are used up
 	Fill(u16),
+	/// exactly this many prefix hops (capped at the maximum), used by the enumerated grid
+	Exact(u8),
 }
 
 #[derive(Clone, Debug, Serialize, Deserialize)]
@@ -275,6 +277,7 @@ fn oracle_chain(c: &ChainCase, ctx: &mut Ctx) -> CaseResult {
 		Mode::Take(s) => (pick(s, pmax + 1), "mode=take"),
 		Mode::Max => (pmax, "mode=max"),
 		Mode::Fill(s) => (pick(s, pmax + 1), "mode=fill"),
+		Mode::Exact(x) => ((x as usize).min(pmax), "mode=exact"),
 	};
 	ctx.label(label);
 	let mut over_fill = None;
@@ -308,6 +311,12 @@ fn oracle_chain(c: &ChainCase, ctx: &mut Ctx) -> CaseResult {
 	ctx.label_if(c.world.wide, "wide-cltv");
 	let rich = plan.n_blinded > 0 || v.keysend_preimage.is_some() || v.recipient_onion.payment_metadata.is_some() || !v.recipient_onion.custom_tlvs().is_empty();
 	ctx.nontrivial_if(n >= 3 && (rich || p == pmax));
+	ctx.summary(serde_json::json!({
+		"seed": c.world.seed, "height": v.height, "hops": n, "blinded_hops": plan.n_blinded, "max_prefix_hops_that_fit": pmax, "prefix_hops": p,
+		"hop_data_bytes": v.size, "mode": format!("{:?}", c.mode), "keysend": v.keysend_preimage.is_some(),
+		"metadata_len": v.recipient_onion.payment_metadata.as_ref().map(|m| m.len()),
+		"custom_tlvs": v.recipient_onion.custom_tlvs().iter().map(|(t, x)| (*t, x.len())).collect::<Vec<_>>(),
+	}));
 
 	// (a) the route fits: the builder must accept it and announce the first hop's amount / expiry
 	let first = match build(&secp, v) {
@@ -388,6 +397,7 @@ fn oracle_corrupt(c: &CorruptCase, ctx: &mut Ctx) -> CaseResult {
 	ctx.label_if(c.mask.count_ones() == 1, "single-bit");
 	ctx.label_if(msg.onion_routing_packet.public_key.is_err(), "invalid-point");
 	ctx.nontrivial_if(n >= 3 && j >= 1);
+	ctx.summary(serde_json::json!({ "seed": c.world.seed, "hops": n, "blinded_hops": plan.n_blinded, "corrupted_hop": j, "field": format!("{:?}", c.field), "byte": off, "mask": c.mask }));
 
 	// the reference peel says why a conforming node refuses
 	let nd = plan.node(j);
@@ -425,6 +435,41 @@ fn oracle_corrupt(c: &CorruptCase, ctx: &mut Ctx) -> CaseResult {
 	}
 }
 
+fn grid_cases() -> Vec<ChainCase> {
+	use world::{BlindFwdSpec, BlindSpec, HopSpec, RecipSpec};
+	let hop = |i: u64| HopSpec { scid: 1000 + 64 * i, fee: 1000 + i, delta: 0 };
+	let blind = |k: u64| BlindSpec {
+		fwd: (0..k).map(|i| BlindFwdSpec { scid: 5000 + 64 * i, base: 1000, prop: 100, delta: 0 }).collect(),
+		min_final: 0,
+		excess: 3,
+		ctx_meta: None,
+		base_bytes: 2,
+		htlc_min: 1,
+	};
+	let shapes: Vec<(RecipSpec, Option<BlindSpec>)> = vec![
+		(RecipSpec { secret: true, metadata: None, custom: vec![], keysend: false, total_extra: 0 }, None),
+		(RecipSpec { secret: true, metadata: Some(20), custom: vec![(70_001, 10)], keysend: true, total_extra: 5 }, None),
+		(RecipSpec { secret: true, metadata: None, custom: vec![], keysend: false, total_extra: 0 }, Some(blind(2))),
+		(RecipSpec { secret: true, metadata: None, custom: vec![(70_001, 10)], keysend: true, total_extra: 0 }, Some(blind(0))),
+	];
+	let mut out = vec![];
+	for (si, (recip, bl)) in shapes.into_iter().enumerate() {
+		for p in 0..=POOL as u8 {
+			let world = World {
+				seed: 1000 + si as u64,
+				height: 800_000,
+				wide: false,
+				prefix: (0..POOL as u64).map(hop).collect(),
+				last: HopSpec { scid: 99 * 64, fee: 50_000, delta: 0 },
+				recip: recip.clone(),
+				blind: bl.clone(),
+			};
+			out.push(ChainCase { world, mode: Mode::Exact(p) });
+		}
+	}
+	out
+}
+
 fn main() {
 	let mut c = Check::new("C14", "exploration");
 	c.assume("Hop keys are production KeysManager signers derived from generated seeds; forwarding hops apply LDK's own relay policy, so per-hop CLTV deltas are >= 48 and the total <= 2015 blocks (amounts, heights, scids and recipient fields are unconstrained within protocol limits)");
@@ -453,6 +498,13 @@ fn main() {
 		},
 		corrupt_strat(),
 		oracle_corrupt,
+	);
+	c.enumerate(
+		"build-peel-grid",
+		"every prefix length 0..=27 (capped at the maximum that fits) for four fixed recipient shapes: plain, keysend+metadata+custom TLV, 3-hop blinded tail, 1-hop blinded tail",
+		grid_cases(),
+		true,
+		oracle_chain,
 	);
 	fail::register(&mut c);
 	c.finish();
